@@ -108,6 +108,58 @@ def r12_reset_empties_the_buffer(ck, cx, rule='R12'):
     ck.floor(rule, n, 3, 'paths of resetFrame over the framers')
 
 
+def r13_reset_restores_all_framing_state(ck, cx, rule='R13'):
+    """Everything a framer remembers between calls is framing state: the buffer, the parsed header, and whatever else its receive
+    methods store on the instance (a scan offset, a cached frame size).  resetFrame() is the recovery primitive; state it leaves
+    behind describes bytes that are gone, and the receiver stays out of step with the stream (a search offset beyond the end of
+    the next frames means their terminator is never found).  Every attribute the receive-side methods assign is assigned by
+    resetFrame() too (which value the header gets is C06 R3's concern)."""
+    ck.rule(rule, 'resetFrame() re-initialises every attribute the receive-side methods of the framer assign (buffer, header and any further remembered position)')
+    from ..common import annotate
+    n = 0
+    SEND_SIDE = ('buildPacket', 'sendPacket', '__init__', 'resetFrame')
+    for kind in ('tcp',) + tuple(KINDS):
+        cls, f, fps = framer_paths(cx, kind)
+        state = {}
+        for k in cx.idx.mro(cls):
+            if not k.qn.startswith('pymodbus.framer'):
+                continue
+            for fn in k.methods.values():
+                if fn.name in SEND_SIDE or cx.idx.find_method(cls, fn.name) is not fn:
+                    continue
+                for x in ast.walk(fn.node):
+                    tg = x.targets if isinstance(x, ast.Assign) else ([x.target] if isinstance(x, ast.AugAssign) else [])
+                    for t in tg:
+                        for el in (t.elts if isinstance(t, (ast.Tuple, ast.List)) else [t]):
+                            base = el
+                            while isinstance(base, ast.Subscript):
+                                base = base.value
+                            if isinstance(base, ast.Attribute) and U(base.value) == 'self':
+                                state.setdefault(base.attr, fn)
+        r = cx.method(cls, 'resetFrame')
+        init = cx.method(cls, '__init__')
+        ck.saw('functions', r.qn)
+
+        def final(fn_):
+            vals = {}
+            for p in cx.enum(fn_, cls, max_depth=2, default_kwargs=True):
+                if p.exit and isinstance(p.exit, tuple) and p.exit[0] == 'exc':
+                    continue
+                st = annotate(p, heap=True)
+                for a in state:
+                    v = st.heap.get('self.' + a)
+                    vals.setdefault(a, set()).add(None if v is None else repr(cx.ce.try_ev(v, fn_.mod, cls, default=U(v))))
+            return vals
+        rv, iv = final(r), final(init)
+        for a, where in sorted(state.items()):
+            n += 1
+            got = rv.get(a, {None})
+            ck.ob(rule, r.qn, 'resetFrame() assigns self.%s' % a, None not in got, detail='reset-leaves-state %s' % a, loc=cx.floc(r),
+                  message='%s framer: %s stores self.%s, resetFrame() does not re-initialise it: after a reset the framer still carries a remembered position / size of bytes '
+                          'that are gone, and frames that arrive afterwards are measured against it' % (kind, where.qn, a))
+    ck.floor(rule, n, 6, 'framing-state attributes over the framers')
+
+
 def run(ck, tier):
     cx = Ctx()
     ck.rule('R1', 'progress on a corrupt complete frame: after a failed integrity check (checkCRC/checkLRC false) the buffer shrinks before processIncomingPacket returns')
@@ -213,6 +265,7 @@ def run(ck, tier):
     _imp(ck, 'C13', 'R9', ('R5',), 'noise or an abandoned reply left in the port shifts every later count-based read: the master never resynchronises')
     ck.guard(r11_readiness_is_monotone, ck, cx)
     ck.guard(r12_reset_empties_the_buffer, ck, cx)
+    ck.guard(r13_reset_restores_all_framing_state, ck, cx)
     from .. import strtypes as _st
     ck.rule('R10', 'hexlify_packets, evaluated with the receive buffer on every reset / processing path outside any log-level guard, is total: what it joins is text')
     ck.guard(_st.rule_join_total, ck, cx, 'R10', ('pymodbus.utilities.hexlify_packets',), 'resetFrame() raises before it clears the buffer: the backlog is never dropped and the serial handler dies in its own except branch')
